@@ -30,16 +30,18 @@ try:
         shutil.copytree(sdir, dst)
         return sh(demo_cmd, wt)
     rc0, out0 = run_demo()
-    res["demo_without_patch"] = "pass" if rc0 == 0 else "FAIL: " + out0[-400:]
+    def failed(rc, out):   # some demo commands end with a clean-up step, so also look at go test's own verdict
+        return rc != 0 or "--- FAIL" in out or "\nFAIL" in out or "panic:" in out
+    res["demo_without_patch"] = "pass" if not failed(rc0, out0) else "FAIL: " + out0[-400:]
     sh("git checkout -- . && git clean -fdq -e seeds", wt)
     rc, out = sh("git apply %s" % patch, wt); res["applies"] = rc == 0
     rc, out = sh("go build ./... && go vet ./... >/dev/null 2>&1; go build ./...", wt); res["builds"] = rc == 0
     rc, out = sh("go test -count=1 " + " ".join(pkgs), wt); res["existing_tests_pass"] = rc == 0
     if rc != 0: res["existing_tests_output"] = out[-600:]
     rc1, out1 = run_demo()
-    res["demo_with_patch"] = "fails (as required)" if rc1 != 0 else "PASSES (seed does not manifest)"
+    res["demo_with_patch"] = "fails (as required)" if failed(rc1, out1) else "PASSES (seed does not manifest)"
     res["demo_output_with_patch"] = out1[-500:]
-    valid = res["applies"] and res["builds"] and res["existing_tests_pass"] and rc0 == 0 and rc1 != 0
+    valid = res["applies"] and res["builds"] and res["existing_tests_pass"] and not failed(rc0, out0) and failed(rc1, out1)
     res["valid_seed"] = valid
 finally:
     subprocess.run("git worktree remove --force %s" % wt, shell=True, cwd="/repo")
